@@ -30,11 +30,11 @@ func init() {
 		Run:      ruleCur1})
 	Register(&Rule{ID: "R-CUR-2", Props: []string{"C16"}, Floor: 4,
 		Doc:      "in every method of Cursor each dereference of the loaded c.view (field access, method call on it) is dominated by a test that showed this field non-nil; every store of a view in Open is dominated by the test that the cursor is closed, and the open branch of that test only reaches returns with a non-nil error",
-		Controls: []string{"CtlCursor).Fetch", "CtlCursor).Open"},
+		Controls: []string{"CtlCursor).Fetch", "CtlCursor).Open", "CtlUnguardedHelperCursor).last"},
 		Run:      ruleCur2})
 	Register(&Rule{ID: "R-CUR-4", Props: []string{"C16"}, Floor: 10,
 		Doc:      "WhileInCursor passes a FetchPosition whose only initialised part is Position.Token = parser.NEXT; FetchCursor forwards that token (or the default NEXT) unchanged through ReferenceScope.FetchCursor and CursorMap.Fetch to Cursor.Fetch; Cursor.Fetch, evaluated for each fetch-position token, first stores index+1 for NEXT, index-1 for PRIOR, 0 for FIRST, RecordLen()-1 for LAST, number for ABSOLUTE and index+number for RELATIVE",
-		Controls: []string{"CtlCursor).Fetch"},
+		Controls: []string{"CtlCursor).Fetch", "CtlMoveHelperCursor).move"},
 		Run:      ruleCur4})
 	Register(&Rule{ID: "R-CUR-5", Props: []string{"C16"}, Floor: 4,
 		Doc:      "every path of Open that can return a nil error stores the new view, index = -1 and fetched = false; every path of Close that can return a nil error stores view = nil",
@@ -409,6 +409,10 @@ func ruleCur2(c *Ctx) {
 			c.Sites += n
 			key := c.KeyAt(fn, "dereferences of c.view are guarded")
 			if firstBad != nil {
+				if ok, why := curGuardedHelper(c, ct, fn, 0); ok {
+					c.Ok(key, c.Pos(firstPos), fmt.Sprintf("%d dereference(s) in a private helper: %s", n, why))
+					continue
+				}
 				c.Bad(key, c.Pos(firstBad), fmt.Sprintf("%s dereferences c.view at %s without a dominating test that it is non-nil: on a cursor that is declared but not open (or was closed) this is a nil dereference — an internal Fatal Error instead of the 'cursor is closed' error", c.P.Name(fn), c.Pos(firstBad)))
 			} else {
 				c.Ok(key, c.Pos(firstPos), fmt.Sprintf("%d dereference(s), each dominated by the c.view != nil side of a test of the same field", n))
@@ -482,7 +486,75 @@ func ruleCur2(c *Ctx) {
 			c.Ok(key, c.Pos(guard), "every store of the view is dominated by c.view == nil; the other branch returns a constructed error")
 		}
 	}
-	c.negControls(start, "OkCursor).Fetch", "OkCursor).Open")
+	c.negControls(start, "OkCursor).Fetch", "OkCursor).Open", "OkMoveHelperCursor).move", "OkMoveHelperCursor).Fetch")
+}
+
+// curGuardedHelper: fn is a method of the cursor type that is only called from
+// methods of the same cursor, on the caller's own receiver, at sites where the
+// caller has shown its c.view non-nil (a dominating test of the same field with
+// no store to the field in between) — or from another such helper.
+func curGuardedHelper(c *Ctx, ct *curType, fn *ssa.Function, depth int) (bool, string) {
+	if depth > 2 || len(fn.Params) == 0 {
+		return false, ""
+	}
+	isMethod := map[*ssa.Function]bool{}
+	for _, m := range ct.methods {
+		isMethod[m] = true
+	}
+	owner := ct.field("view")
+	n := 0
+	var callers []string
+	for _, e := range c.P.Callers(fn) {
+		if e.Site == nil || e.Caller == nil || e.Caller.Func == nil {
+			continue
+		}
+		caller := e.Caller.Func
+		if caller == fn {
+			continue
+		}
+		n++
+		site := e.Site.(ssa.Instruction)
+		args := e.Site.Common().Args
+		if !isMethod[caller] || len(caller.Params) == 0 || len(args) == 0 || scpResolveCell(args[0]) != ssa.Value(caller.Params[0]) {
+			return false, ""
+		}
+		guarded := false
+		for _, f := range core.FactsAt(site.Block()) {
+			x, neq, isCmp := core.NilCmp(f.Cond)
+			if !isCmp || neq == f.Neg {
+				continue // not a "non-nil" fact
+			}
+			ld, ok := x.(*ssa.UnOp)
+			if !ok || ld.Op != token.MUL {
+				continue
+			}
+			fa, ok := ld.X.(*ssa.FieldAddr)
+			if !ok || core.FieldOwner(fa) != owner || scpResolveCell(fa.X) != ssa.Value(caller.Params[0]) {
+				continue
+			}
+			// no store to the field between the test and the call
+			clean := true
+			for _, st := range curStoresToField(caller, owner) {
+				if core.Reachable(ld, st, nil) && core.Reachable(st, site, nil) {
+					clean = false
+				}
+			}
+			if clean {
+				guarded = true
+			}
+		}
+		if !guarded {
+			if ok, _ := curGuardedHelper(c, ct, caller, depth+1); !ok {
+				return false, ""
+			}
+		}
+		callers = append(callers, caller.Name())
+	}
+	if n == 0 {
+		return false, ""
+	}
+	sort.Strings(callers)
+	return true, fmt.Sprintf("every call site (%s) passes the caller's own cursor and is dominated by the caller's c.view != nil test", strings.Join(callers, ", "))
 }
 
 // ---------------------------------------------------------------------------
@@ -624,6 +696,8 @@ func curSubStores(al *ssa.Alloc) (stores map[string][]ssa.Value, ok bool) {
 }
 
 func ruleCur4(c *Ctx) {
+	start := len(c.Obs)
+	defer func() { c.negControls(start, "OkMoveHelperCursor).move", "OkCursor).Fetch") }()
 	next, okN := curParserConst(c, "NEXT")
 	if !okN {
 		c.Unknown("anchor:lib/parser.NEXT", "-", "cannot-analyse: parser.NEXT is not a constant")
@@ -831,8 +905,52 @@ func curHoldsParam(al *ssa.Alloc, prm *ssa.Parameter) bool {
 
 // curFetchTable evaluates Cursor.Fetch for every fetch-position token.
 func curFetchTable(c *Ctx, fn *ssa.Function, idx int, ct *curType) {
+	curFetchTableIn(c, fn, idx, ct, 0)
+}
+
+func curFetchTableIn(c *Ctx, fn *ssa.Function, idx int, ct *curType, depth int) {
 	c.Touch(fn)
 	pos := fn.Params[idx]
+	// the position switch may live in a private helper of the cursor: a call of a
+	// cursor method on the same receiver that receives the position, executed
+	// before any index store of this function
+	if depth < 2 {
+		for _, call := range core.Calls(fn) {
+			g := core.StaticCallee(call)
+			cv, isCall := call.(*ssa.Call)
+			args := call.Common().Args
+			if g == nil || !isCall || g.Blocks == nil || len(args) == 0 || len(fn.Params) == 0 || scpResolveCell(args[0]) != ssa.Value(fn.Params[0]) {
+				continue
+			}
+			isMethod := false
+			for _, m := range ct.methods {
+				if m == g {
+					isMethod = true
+				}
+			}
+			if !isMethod {
+				continue
+			}
+			for j, a := range args {
+				if a != ssa.Value(pos) {
+					continue
+				}
+				// every index store of fn comes after the call
+				first := true
+				for _, st := range curStoresToField(fn, ct.field("index")) {
+					if !core.Dominates(cv, st) {
+						first = false
+					}
+				}
+				if !first {
+					continue
+				}
+				c.Ok(c.KeyAt(fn, "hands the fetch position to "+g.Name()), c.Pos(cv), "the first move of the pointer is made by "+c.P.Name(g)+", called before any index store of this function")
+				curFetchTableIn(c, g, j, ct, depth+1)
+				return
+			}
+		}
+	}
 	var number ssa.Value
 	for i, p := range fn.Params {
 		if b, ok := p.Type().Underlying().(*types.Basic); ok && b.Kind() == types.Int && i != idx {
